@@ -80,6 +80,9 @@ def map_expr_dags(function, expressions, compress=True, vcache=None, rcache=None
 
     # Build mapping typecode:bool, for which types to skip the subtree of
     if isinstance(function, MultiFunction):
+        if len(function._handlers) != Expr._ufl_num_typecodes_:
+            # Types have been registered since the function object was created
+            function._update_handlers()
         cutoff_types = function._is_cutoff_type
         handlers = function._handlers  # Optimization
     else:
